@@ -10,6 +10,9 @@
 //	        scope, scoped TTL cap under virtual time, no background refresh
 //	part C  shared synthesised denials are neither consumed nor created by
 //	        ECS/CD request trees (alias chases, internal sub-queries, Store)
+//	part D  the same audience / leak / reply clauses with the REAL resolver:
+//	        full production chain on an authsim universe with an ECS-aware
+//	        tailoring authority (partD.go, judgeD.go)
 //
 // Every part runs scenarios (one Stack + an op list); a scenario is the
 // replay unit (--replay re-executes the recorded op prefix).
@@ -87,6 +90,8 @@ func main() {
 	r := vlib.Start("C19", "exploration")
 	r.Assume("upstream = the request handed to the terminal stub that replaces failover/resolver (harness/stack); the resolver's own packing of that OPT is not observed")
 	r.Assume("virtual time = (*Cache).VerifAdvance rewriting stored instants at quiescent points")
+	r.Assume("part D: the real resolver resolves against scripted authorities (harness/authsim); upstream = raw bytes of every query those authorities received; virtual time = cache VerifAdvance + delegation-cache VerifAdvance")
+	r.Assume("part D reading: any upstream query made during a client's exchange may carry exactly the option the policy permits for that client (the tree sends it to every server on the descent of the client's question, not on helper queries); the statement restricts when and what, not to whom")
 	r.Assume("validated-denial provenance is injected by the stub through middleware.MarkValidatedNegativeProofResponse (structurally complete, unsigned proofs)")
 
 	if raw := r.ReplayCase(); raw != nil {
@@ -162,5 +167,34 @@ func main() {
 	r.Require("denial_store_get_plain_hits", 5)
 	r.Require("denial_store_get_marked_misses", 5)
 
-	r.Finish("distinct = (family, forwarded length, ceilings, entry) forwarding shapes whose upstream option matched the recomputation + (family, declared, forwarded, effective) scoped cache serves inside the audience")
+	// part D (real resolver on an authsim universe)
+	if want("D") {
+		r.Require("d_upstream_packets_inspected", 500)
+		r.Require("d_upstream_ecs_matches_expected", 150) // upstream queries with ECS observed (raw bytes, exact match)
+		r.Require("d_upstream_ecs_matches_expected_fam1", 40)
+		r.Require("d_upstream_ecs_matches_expected_fam2", 40)
+		r.Require("d_upstream_ecs_clamped_by_ceiling", 30)
+		r.Require("d_helper_queries_without_ecs", 60) // DS / DNSKEY / NS-address helpers inspected
+		r.Require("d_stripped_other_options", 100)
+		r.Require("d_stripped_ecs_not_eligible", 5)
+		r.Require("d_disabled_policy_ecs_queries", 10)
+		r.Require("d_invalid_policy_ecs_queries", 10)
+		r.Require("d_replies_judged", 800)
+		r.Require("d_replies_via_raw", 150)
+		r.Require("d_replies_via_msgwire", 150)
+		r.Require("d_replies_via_msgstruct", 100)
+		r.Require("d_scoped_answers_served", 200) // replies carrying the marker of an answer with a declared scope > 0
+		r.Require("d_scoped_serves_inside_scope_fam1", 40)
+		r.Require("d_scoped_serves_inside_scope_fam2", 40)
+		r.Require("d_outside_scope_probes", 100) // a client outside a live scoped answer's audience asked the name
+		r.Require("d_other_subnet_probes", 40)
+		r.Require("d_non_ecs_probes", 50)
+		r.Require("d_concurrent_pairs", 30)
+		r.Require("d_concurrent_pairs_both_parked_in_shared_lookup", 10)
+		r.Require("d_scoped_cache_serves_ttl_judged", 60)
+		r.Require("d_scoped_hits_checked_for_refresh", 80)
+		r.Require("d_background_refreshes_of_global_entries", 10)
+	}
+
+	r.Finish("distinct = (family, forwarded length, ceilings, entry) forwarding shapes whose upstream option matched the recomputation + (family, declared, forwarded, effective) scoped cache serves inside the audience; part D adds the same two classes observed at the real authorities (dfwd/…, daud/…)")
 }
